@@ -184,6 +184,60 @@ def ref_event(e, rootname, owners=None):
     return ev
 
 
+def output_refs(xform: str, rootname: str) -> list:
+    """Every node path that occurs in an expression or text of the emitted XForm, with the node it is evaluated from.
+
+    Independent of the substitution hook: read from the output alone (binds, body attributes, label/hint outputs, itemset
+    predicates, setvalue values, itext values)."""
+    root = project.parse(xform)
+    tok = re.compile(r"(?<![\w/.'\)])(?:current\(\)/)?((?:\.\./)+[\w.\-]+(?:/[\w.\-]+)*|/" + re.escape(rootname) + r"(?:/[\w.\-]+)+)")
+    out = []
+
+    def below(path_text):
+        sp = project.split_path(path_text) if path_text else None
+        if sp and sp[-1].startswith("@"):
+            sp = sp[:-1]
+        return _below_root(sp, rootname)
+
+    def scan(ctx, text, where):
+        if ctx is None or not text:
+            return
+        for m in tok.finditer(text):
+            pe = abstract.parse_ref_output(m.group(1), rootname)
+            if pe is not None:
+                out.append({"ctx": ctx, "e": pe, "where": where})
+
+    for b in project.binds(root):
+        ctx = below(b["nodeset"])
+        for a, v in b["attrs"].items():
+            if a in ("calculate", "relevant", "constraint", "required", "readonly"):
+                scan(ctx, v, "bind/@" + a)
+    for c in project.body_preorder(root):
+        ctx = below(c["nodeset"] if c["tag"] == "repeat" else c["ref"])
+        for a, v in c["attrs"].items():
+            if a != "jr:count":
+                scan(ctx, v, "control/@" + a)
+        for key in ("label", "hint"):
+            for p in (c[key] or {}).get("pieces", []):
+                if p[0] == "o":
+                    scan(ctx, p[1], key + "/output")
+        if c["itemset"] and "[" in (c["itemset"]["nodeset"] or ""):
+            scan(ctx, c["itemset"]["nodeset"].split("[", 1)[1], "itemset predicate")
+    for a in project.all_setvalues(root):
+        scan(below(a.get("ref")), a.get("value"), "setvalue/@value")
+    it = project.itext(root)
+    for lang, texts in it["texts"].items():
+        for tid, vals in texts.items():
+            if ":" not in tid or not tid.startswith("/"):
+                continue
+            ctx = below(tid.rsplit(":", 1)[0] if not tid.endswith(("jr:constraintMsg", "jr:requiredMsg", "jr:noAppErrorString")) else tid.rsplit(":", 2)[0])
+            for v in vals:
+                for p in v["pieces"]:
+                    if p[0] == "o":
+                        scan(ctx, p[1], "itext output")
+    return out
+
+
 def residual_refs(xform: str) -> int:
     root = project.parse(xform)
     return sum(1 for _, _, v in project.all_attr_values(root) if "${" in v)
@@ -247,8 +301,10 @@ def build(result: dict, cfg: dict, with_refs: bool = False, src: dict | None = N
         end["obs"] = observe(result["xform"])
         if with_refs:
             end["residual"] = residual_refs(result["xform"])
+            end["outrefs"] = output_refs(result["xform"], cfg["formname"])
     else:
         end["obs"] = {"inst": [], "body": [], "binds": [], "actions": [], "setv": [], "root": ""}
+    end.setdefault("outrefs", [])
     end["src"] = {"binds": [], "defaults": [], "triggers": []}
     if src:
         end["src"].update(src)
